@@ -12,6 +12,7 @@ import (
 // ---------------------------------------------------------------- C08
 
 func genRem(g *Gen) {
+	genCodecInto(g) // byte-level tie of the bucket codecs (engine codec), part of C08
 	nHist := g.Scale(90, 1500)
 	for h := 0; h < nHist || (!g.Covered() && h < 6*nHist); h++ {
 		genRemHistory(g, h)
